@@ -35,8 +35,10 @@ ASSUMPTIONS = [
     'binary64 rounding of A enters the exact evaluation of W·A + Aᵀ·W; a tolerance of 1e-9·max|P| absorbs it on the well-conditioned instances generated',
 ]
 
+EXTRA_CANON = {}      # set by the value-variation stream: same ids, different values, same process
+
 def canon(desc, symptom, **kw):
-    return dict(op='passivity', symptom=symptom, **gs.facts(desc), **kw)
+    return dict(op='passivity', symptom=symptom, **gs.facts(desc), **EXTRA_CANON, **kw)
 
 def pulse_inputs(desc, sources, tin, k_on, k_off):
     """piecewise-linear pulses with breakpoints on the grid: 0, one-sample ramp up, hold,
@@ -142,10 +144,18 @@ def run(ctx, out):
             if ok: break
             out.count('rejected_degenerate:' + why)
         check_case(ctx, out, desc)
+        # value-variation stream: the same description (ids, nodes, order) with other R, L, C values in
+        # the same process, then the first one again — state leaking between analyses would show here
+        if rng.random() < (0.3 if ctx.quick else 1.0):
+            gs.run_sequence(out, EXTRA_CANON, [desc, gs.vary_values(rng, desc), desc], lambda d: check_case(ctx, out, d, 'varied'))
+            out.count('value_variation_sequences')
         if gs.facts(desc)['n_reactive'] > 1 and rng.random() < (0.4 if ctx.quick else 1.0):
             check_case(ctx, out, gs.permute_reactive(rng, desc, keep_inductors_sorted=safe), 'permuted')
 
 def replay(ctx, out, rp):
+    if rp.get('sequence'):
+        gs.run_sequence(out, EXTRA_CANON, rp['sequence'], lambda d: check_case(ctx, out, d, 'replay'))
+        return
     desc = rp.get('desc')
     if desc is None:
         raise SystemExit('replay file carries no circuit description')
